@@ -716,7 +716,7 @@ func checkLaws(rng *rand.Rand, n int) {
 
 func runC08() {
 	rng := rand.New(rand.NewSource(plib.Seed))
-	maxSize, nRandom, nLaws := 5, 60000, 5000
+	maxSize, nRandom, nLaws := 5, 250000, 20000
 	if plib.Thorough() {
 		maxSize, nRandom, nLaws = 6, 1500000, 200000
 	}
@@ -1009,7 +1009,7 @@ func family() []gen {
 }
 
 func runC09() {
-	maxLen := 6
+	maxLen := 7
 	if plib.Thorough() {
 		maxLen = 8
 	}
